@@ -4,32 +4,18 @@ use crate::support::*;
 use core::cmp::Ordering;
 pub mod ty {
     #![deny(warnings)]
-    #![allow(dead_code, unused_imports)]
+    #![allow(dead_code, unused_imports, non_snake_case)]
     use crate::support::{A, B, C, Good, Bad, m_eq, m_cmp, m_pcmp, m_hash, m_fmt, m_clone, m_clone_c, m_into, g_eq, g_cmp, g_pcmp, g_hash, g_fmt};
     use educe::Educe;
-
-    // names at the derive site that shadow everything the generated code might be tempted to write unqualified
-    #[allow(non_camel_case_types)] pub struct Option; pub struct Result; pub struct Ordering; pub struct Clone; pub struct Copy;
-    pub struct Default; pub struct Debug; pub struct PartialEq; pub struct Eq; pub struct PartialOrd; pub struct Ord; pub struct Hash;
-    pub struct Hasher; pub struct Into; pub struct From; pub struct Deref; pub struct DerefMut; pub struct Formatter; pub struct String;
-    pub struct Vec; pub struct Box; pub struct PhantomData; pub struct Sized; pub struct Send; pub struct Iterator; pub struct Self_;
-    #[allow(non_snake_case)] pub fn Some() {} #[allow(non_snake_case)] pub fn None() {} #[allow(non_snake_case)] pub fn Ok() {} #[allow(non_snake_case)] pub fn Err() {}
-    pub fn drop() {} pub mod core {} pub mod std {} pub mod alloc {} pub mod fmt {} pub mod cmp {} pub mod hash {} pub mod clone {} pub mod marker {}
-    #[allow(unused_macros)] macro_rules! stringify { ($($t:tt)*) => { "SHADOWED" } }
-    #[allow(unused_macros)] macro_rules! unreachable { ($($t:tt)*) => { () } }
-    #[allow(unused_macros)] macro_rules! panic { ($($t:tt)*) => { () } }
-    #[allow(unused_macros)] macro_rules! matches { ($($t:tt)*) => { true } }
-    #[allow(unused_macros)] macro_rules! write { ($($t:tt)*) => { () } }
-    #[allow(unused_macros)] macro_rules! format_args { ($($t:tt)*) => { () } }
-    #[allow(unused_macros)] macro_rules! assert { ($($t:tt)*) => { () } }
 #[derive(Educe)]
-#[educe(PartialEq, Eq, Ord)]
-pub struct T;
+#[educe(PartialOrd, Ord, Eq, PartialEq)]
+#[educe(Debug)]
+pub enum T { C {  }, Some }
 }
 pub use ty::T;
-impl PartialOrd for T { fn partial_cmp(&self, o: &Self) -> Option<Ordering> { Some(::core::cmp::Ord::cmp(self, o)) } }
-pub fn values() -> Vec<T> { vec![T] }
-pub fn show(x: &T) -> String { #[allow(unused_variables)] match x { T => format!("T()") } }
-pub fn o_disc(x: &T) -> i128 { match x { T => 0 } }
-pub fn o_cmp(a: &T, b: &T) -> Ordering { match (a, b) { (T, T) => {  Ordering::Equal } } }
-pub fn run(out: &mut Out) { let vs = values(); for (i, a) in vs.iter().enumerate() { for (j, b) in vs.iter().enumerate() { let e = o_cmp(a, b); let g = ::core::cmp::Ord::cmp(a, b); out.check(g == e, "ord_13", "cmp", || format!("cmp({}, {}) = {:?} expected {:?}", show(a), show(b), g, e)); } } }
+
+pub fn values() -> Vec<T> { vec![T::C {  }, T::Some] }
+pub fn show(x: &T) -> String { #[allow(unused_variables)] match x { T::C {  } => format!("C()"), T::Some => format!("Some()") } }
+pub fn o_disc(x: &T) -> i128 { match x { T::C {  } => 0, T::Some => 1 } }
+pub fn o_cmp(a: &T, b: &T) -> Ordering { match (a, b) { (T::C {  }, T::C {  }) => {  Ordering::Equal }, (T::Some, T::Some) => {  Ordering::Equal }, _ => o_disc(a).cmp(&o_disc(b)) } }
+pub fn run(out: &mut Out) { let vs = values(); for (i, a) in vs.iter().enumerate() { for (j, b) in vs.iter().enumerate() { let e = o_cmp(a, b); let g = ::core::cmp::Ord::cmp(a, b); out.check(g == e, "ord_13", "cmp", || format!("cmp({}, {}) = {:?} expected {:?}", show(a), show(b), g, e)); let g2 = ::core::cmp::PartialOrd::partial_cmp(a, b); out.check(g2 == Some(e), "ord_13", "partial_is_some_cmp", || format!("partial_cmp({}, {}) = {:?} expected Some({:?})", show(a), show(b), g2, e)); } } }
